@@ -742,8 +742,11 @@ class BaseProperty(base.BaseObject):
         if self.unit is None and other.unit is not None:
             self.unit = other.unit
 
+        # merge_check made sure that all values fit; do not check the dtype a second
+        # time by inference since this refuses e.g. multi-line text in a "string"
+        # Property after the attributes have already been merged.
         to_add = [v for v in other.values if v not in self._values]
-        self.extend(to_add, strict=strict)
+        self.extend(to_add, strict=False)
 
     def unmerge(self, other):
         """
